@@ -5,6 +5,7 @@ import TinysetModel.Proofs.CfgInst
 import TinysetModel.Proofs.TotalSites
 import TinysetModel.Proofs.RemoveTotal
 import TinysetModel.Proofs.TotalOpsRun
+import TinysetModel.Proofs.WFSoundConv
 /-! C01 — SetU64 behaves as an exact mathematical set of u64 under every history.
 The theorems below are about the executable model instantiated at `cfg64`. -/
 namespace C01
@@ -184,6 +185,23 @@ theorem remove_returns_and_is_right_u64 {D : Type} (g : Rng D) (fuel : Nat) {r :
     ∃ r' b d', remove cfg64 g (fuel + 2) r e d = .ok ((r', b), d') ∧ RemOK cfg64 r e r' b :=
   remove_total_correct_u64 g fuel wf e he d
 
+/-- **The validator's check on a real representation is the invariant.** `wfB`/`absB` are the executable tests the
+    trace validator evaluates on the words it reads from the implementation's memory after every step (tables of
+    moderate size); they hold exactly when `WF` does.  So a checked state of the real crate satisfies the hypothesis
+    of every theorem of this development, and everything proved from `WF` applies to it. -/
+theorem checked_state_is_wellformed_u64 (r : Rp) : WF cfg64 r ↔ (wfB cfg64 r = true ∧ absB cfg64 r = true) :=
+  wf_iff_check cfg64 cfg64_ok r
+
+/-- in particular: from a state that passes the check, every history (that returns) answers like the ideal set
+    holding that state's members -/
+theorem run_refines_from_checked_u64 {D : Type} (g : Rng D) (fuel : Nat) (ops : List Op)
+    (hops : ∀ op ∈ ops, op.InRange 64) {r : Rp} (hc : wfB cfg64 r = true ∧ absB cfg64 r = true)
+    {d d' : D} {r' : Rp} {outs : List Out} (h : runOps cfg64 g fuel r ops d = .ok ((r', outs), d')) :
+    WF cfg64 r' ∧ outs = (specRun (elems cfg64 r) ops).2 ∧
+      (∀ x, x ∈ elems cfg64 r' ↔ x ∈ (specRun (elems cfg64 r) ops).1) :=
+  have wf := wf_of_check cfg64 r hc.1 hc.2
+  run_refines cfg64_ok g fuel ops hops wf (elems cfg64 r) (absOK_of_wf cfg64_ok wf).nodup (fun _ => Iff.rfl) h
+
 end C01
 
 #print axioms C01.insert_refines_u64
@@ -192,3 +210,5 @@ end C01
 #print axioms C01.run_refines_u64
 #print axioms C01.demo_runs
 #print axioms C01.demo_wf
+#print axioms C01.checked_state_is_wellformed_u64
+#print axioms C01.run_refines_from_checked_u64
